@@ -529,6 +529,29 @@ def _f0_api_case(case, tier, seed):
     return res
 
 
+def _first_touch_case(case, tier, seed):
+    """ground (concrete, fresh interpreters): the x-ray data served do not depend on whether the first x-ray lookup of the
+    process goes through an element, an ion or a compound"""
+    import periodictable as pt
+    from periodictable import xsf
+    res = dict(paths=1, claims=0, discharged=0, queries=0, distinct=0, violations=[], inconclusive=[], samples=[], solver_s=0.0, complete=True)
+    exprs = ['float(pt.Fe.ion[3].xray.f0(3.0))', 'float(pt.H.ion[-1].xray.f0(0.0))', 'float(pt.O.ion[-2].xray.f0(5.0))', 'float(pt.Fe[56].xray.f0(3.0))',
+             '[float(x) for x in xsf.xray_sld("Fe{3+}2O{2-}3@5", energy=8.0)]', '[float(x) for x in pt.Ni[58].xray.sld(energy=8.0)]']
+    want = [eval(e) for e in exprs]
+    for i, e in enumerate(exprs):
+        code = ("import json\nimport periodictable as pt\nfrom periodictable import xsf\nfirst = %s\n"
+                "print(json.dumps([first, [%s]]))\n") % (e, ', '.join(exprs))
+        got = cm.fresh_interpreter(code)
+        res['claims'] += 1
+        if isinstance(got, list) and got[0] == want[i] and got[1] == want:
+            res['discharged'] += 1
+        else:
+            res['violations'].append(dict(case=case.name, claim='first_lookup[%s]' % e, values={}, observed=[repr(got)[:300], repr(want)[:300]], how='fresh interpreter'))
+    res['queries'] = res['distinct'] = res['claims']
+    res['samples'] = [dict(first_lookups=exprs)]
+    return res
+
+
 def _wrap(fn):
     def h(E):
         try:
@@ -569,5 +592,6 @@ def cases(tier):
     out.append(Case('nff_tables_ordered', None, custom=_tables_ordered_case))
     out.append(Case('nff_table_nodes_ground', None, custom=_nodes_ground_case))
     out.append(Case('f0_api_ground', None, custom=_f0_api_case))
+    out.append(Case('first_lookup_ground', None, custom=_first_touch_case))
     out.append(Case('f0_symbol_resolution_crosshair', None, custom=_f0_crosshair, budget_s=500 if th else 200))
     return out
